@@ -179,6 +179,9 @@ func (r *ReflectCopier[Src, Dst]) Copy(src *Src, opts ...option.Option[options])
 // 3. 如果 Src 和 Dst 中匹配的字段，其类型都是结构体，或者都是结构体指针，则会深入复制
 // 4. 否则，忽略字段
 func (r *ReflectCopier[Src, Dst]) CopyTo(src *Src, dst *Dst, opts ...option.Option[options]) error {
+	if dst == nil {
+		return errNilPointer
+	}
 	localOption := r.copyDefaultOptions()
 	option.Apply(&localOption, opts...)
 	return r.copyToWithTree(src, dst, localOption)
